@@ -6,8 +6,9 @@ from harness.engine import tlc as T
 from harness.engine.core import chunks
 
 SPEC = os.path.join(T.SPECS, "Dispatcher")
-EVENTS = ["e1", "e2", "e3"]
+EVENTS = ["e1", "e2", "e3", ""]
 NOPRIO = -999
+NOSPAWN = "<none>"  # "" is a legal event name
 
 
 class Runaway(BaseException):
@@ -47,24 +48,37 @@ class Driver(object):
         return 0
 
     def step(self, op):
+        """every exception of the dispatcher is an observation, never a crash of the driver"""
+        try:
+            return self._step(op)
+        except Exception as e:  # noqa
+            ev = {"op": op["op"], "ev": op.get("ev", ""), "prio": op.get("prio", 0), "stops": op.get("stops", False),
+                  "spawn": op.get("spawn") or {"ev": NOSPAWN, "prio": 0}, "pre": bool(op.get("pre", False)),
+                  "id": op.get("id", 0), "calls": [-2], "ids": [-2], "all": {e: [-2] for e in EVENTS}, "r": False,
+                  "exc": type(e).__name__}
+            if op["op"] == "add":
+                ev["id"] = len(self.listeners)
+            return ev
+
+    def _step(self, op):
         """performs op (a dict with op/ev/prio/stops/id), returns the full event record with observations"""
         from clikit.api.event import Event
 
         ev = {"op": op["op"], "ev": op.get("ev", ""), "prio": op.get("prio", 0), "stops": op.get("stops", False),
-              "spawn": {"ev": "", "prio": 0},
-              "id": op.get("id", 0), "calls": [], "ids": [], "all": {e: [-1] for e in EVENTS}, "r": False}
+              "spawn": {"ev": NOSPAWN, "prio": 0}, "pre": bool(op.get("pre", False)),
+              "id": op.get("id", 0), "calls": [], "ids": [], "all": {e: [-1] for e in EVENTS}, "r": False, "exc": ""}
         k = op["op"]
         if k == "add":
             lid = len(self.listeners) + 1
             stops = op["stops"]
-            spawn = op.get("spawn") or {"ev": "", "prio": 0}
+            spawn = op.get("spawn") or {"ev": NOSPAWN, "prio": 0}
             ev["spawn"] = spawn
 
             def listener(event, name, disp, _lid=lid, _stops=stops, _spawn=spawn):
                 self.called.append(_lid)
                 if len(self.called) > 300:
                     raise Runaway()
-                if _spawn["ev"]:
+                if _spawn["ev"] != NOSPAWN:
                     # a listener that registers another (plain) listener while the dispatch is running
                     nid = len(self.listeners) + 1
 
@@ -86,7 +100,11 @@ class Driver(object):
             self.called = []
             # with the caller's own Event object, or letting the dispatcher create one
             try:
-                if op.get("own", True):
+                if op.get("pre"):
+                    stopped = Event()
+                    stopped.stop_propagation()  # e.g. the event of an earlier, stopped dispatch used again
+                    self._disp().dispatch(op["ev"], stopped)
+                elif op.get("own", True):
                     self._disp().dispatch(op["ev"], Event())
                 else:
                     self._disp().dispatch(op["ev"])
@@ -114,15 +132,17 @@ class Driver(object):
 
 
 def same(exp, ev):
+    if ev.get("exc"):
+        return False
     k = exp["op"]
     if k == "add":
         return ev["id"] == exp["id"]
     if k == "dispatch":
-        return ev["calls"] == exp["calls"]
+        return ev["calls"] == exp["calls"] and ev["pre"] == exp.get("pre", False)
     if k == "get":
         return ev["ids"] == exp["ids"]
     if k == "getall":
-        return all(ev["all"][e] == exp["all"][e] for e in EVENTS)
+        return all(ev["all"][e] == exp["all"][e] for e in exp["all"])
     return ev["r"] == exp["r"]
 
 
@@ -210,11 +230,11 @@ def random_ops(rng, n):
     for _ in range(n):
         x = rng.random()
         if x < 0.4:
-            sp = {"ev": rng.choice(EVENTS), "prio": rng.choice([-5, 0, 5])} if rng.random() < 0.15 else {"ev": "", "prio": 0}
+            sp = {"ev": rng.choice(EVENTS), "prio": rng.choice([-5, 0, 5])} if rng.random() < 0.15 else {"ev": NOSPAWN, "prio": 0}
             ops.append({"op": "add", "ev": rng.choice(EVENTS), "prio": rng.choice([-5, -1, 0, 0, 1, 5, 100]), "stops": rng.random() < 0.2, "spawn": sp})
             nl += 1
         elif x < 0.7:
-            ops.append({"op": "dispatch", "ev": rng.choice(EVENTS), "own": rng.random() < 0.5})
+            ops.append({"op": "dispatch", "ev": rng.choice(EVENTS), "own": rng.random() < 0.5, "pre": rng.random() < 0.15})
         elif x < 0.8:
             ops.append({"op": "get", "ev": rng.choice(EVENTS)})
         elif x < 0.85:
